@@ -413,9 +413,9 @@ def run(chk):
         runs.append(record_abs(tid, inst, cf, ops, unique=rng.random() < 0.4, want_aux=plan['aux']))
     # 3. trace validation in batches.  Conformance with the specification's own lattice (DRIFT, a
     #    diagnostic) is computed for every TLC-enumerated behaviour and, in the quick tier, for the
-    #    first 120 random runs (the specification's big-step evaluation dominates the cost).
+    #    first 120 (thorough: 1500) random runs (the specification's big-step evaluation dominates the cost).
     nontriv = sum(nontrivial(pid, x) for x in runs)
-    n_drift = n_tlc + (len(runs) if thorough else 120)
+    n_drift = n_tlc + (1500 if thorough else 120)
     parts = [(runs[:n_drift], {pid, 'DRIFT'}), (runs[n_drift:], {pid})]
     bi = 0
     for part, want in parts:
